@@ -149,7 +149,7 @@ const genericReduceDefaultRaw = `func reduceDefault{{short .}}(data, retVal []{{
 			strideTrack++
 			if strideTrack >= stride {
 				strideTrack = 0
-				innerStart += stride
+				innerStart += (dimSize - 1) * stride // skip the rest of the reduced block
 			}
 			innerStart++
 		}
